@@ -315,6 +315,16 @@ done:
       flags |= ARES_CONN_STATE_WRITE;
     }
 
+    /* A TCP connection not yet known to be established (e.g. TFO after its
+     * initial write) must keep waiting on a write event, that is the only way
+     * we learn it is connected.  A later flush with nothing to write (such as
+     * ares_process_pending_write()) must not drop that interest, otherwise
+     * queries queued meanwhile are never sent. */
+    if (conn->flags & ARES_CONN_FLAG_TCP &&
+        !(conn->state_flags & ARES_CONN_STATE_CONNECTED)) {
+      flags |= ARES_CONN_STATE_WRITE;
+    }
+
     ares_conn_sock_state_cb_update(conn, flags);
   }
 
